@@ -263,14 +263,16 @@ Text(tokens) ==
 (***************************************************************************)
 OutOfDomain(line) == HasMarker(line.ts)
 
-\* No replaceable macro name is left in the output: an object-like name, or a function-like
-\* name followed by a "(" that was already there when the name was scanned, survives only if
-\* it is in its own hide set.  (A "(" produced by a later replacement -- its hide set is not
-\* contained in the name's -- does not make an invocation: `#define LP (` / `F LP 1 )`.)
+\* No replaceable macro name is left in the output: an object-like name survives only if it
+\* is in its own hide set; a function-like name that is not in its own hide set is never left
+\* directly before a "(" of the same origin (same hide set: both from the source line or both
+\* from one replacement list).  A "(" of another origin need not make an invocation: it may come
+\* from a later replacement (`#define LP (` / `F LP 1 )`) or have become adjacent only because
+\* what stood between vanished (`#define E` / `F E ( 1 )`) -- the name was already passed.
 NoResidualIn(D, line) ==
   \A i \in 1..Len(line) :
     (line[i].c = "i" /\ line[i].t \in DOMAIN D /\ line[i].t \notin line[i].hs)
-      => (D[line[i].t].fn /\ ~(i < Len(line) /\ line[i + 1].t = "(" /\ line[i + 1].hs \subseteq line[i].hs))
+      => (D[line[i].t].fn /\ ~(i < Len(line) /\ line[i + 1].t = "(" /\ line[i + 1].hs = line[i].hs))
 NoResidual == out # <<>> /\ ~OutOfDomain(Last(out)) => NoResidualIn(defs, Last(out).ts)
 
 \* hide sets only ever name macros
